@@ -21,8 +21,12 @@ RULES = {
     "have no write before their last feasible rejection (C06 analysis)",
     "R5": "clone remaps sharding references after all outputs are mapped; deserialization resolves configuration "
     "placeholders before returning; node- and model-level gating use the same version constant",
+    "R6": "model-wide sweeps over node annotations are recursive: every function that walks the main graph and the "
+    "functions of a model to read or rewrite device_configurations takes its nodes from all_nodes() / "
+    "RecursiveGraphIterator for each of them - iterating a graph or function directly visits top-level nodes only, so "
+    "annotations on nodes inside If/Loop bodies would be skipped (cascade removal, placeholder resolution, checker)",
 }
-FLOORS = {"R1": 12, "R2": 4, "R3": 4, "R4": 4, "R5": 4}
+FLOORS = {"R1": 12, "R2": 4, "R3": 4, "R4": 4, "R5": 4, "R6": 6}
 EXPLANATION = (
     "Structural checks on the record classes, on every writer of a node's input/output tuples, on the serializer's "
     "name derivation, the C06 write-before-reject analysis for the annotation API, and ordering (dominator) checks in "
@@ -90,7 +94,10 @@ def rule_r2(ctx):
     # replace_input_with: drop only when the old value really left
     rp = node.methods["replace_input_with"]
     c = [x for x in calls_in(rp) if is_self_call(x, "_drop_sharding_for_value")]
-    ok = len(c) == 1 and norm(c[0].args[0]) == "old_input"
+    # the dropped value is the one read from the input slot before it was overwritten
+    olds = {n.targets[0].id for n in own_nodes(rp.node) if isinstance(n, ast.Assign) and isinstance(n.targets[0], ast.Name)
+            and isinstance(n.value, ast.Subscript) and norm(n.value.value) in ("self.inputs", "self._inputs")}
+    ok = len(c) == 1 and bool(c[0].args) and isinstance(c[0].args[0], ast.Name) and c[0].args[0].id in olds
     ctx.check("R2", "replace_input_with drops the annotations of the replaced value", ok, rp, rp.node,
               "the replaced input's annotations are not dropped", how="call with the old input", nontrivial=False)
     # shape of the drop
@@ -198,8 +205,13 @@ def rule_r5(ctx):
               "outputs keep pointing at the original's values",
               how="the output-mapping loop dominates the remap call; result stored on the clone node")
     rm = repo.func("onnx_ir._cloner:Cloner._remap_device_configurations")
-    ok = any("dataclasses.replace(spec, value=mapped)" in norm(n) for n in own_nodes(rm.node) if isinstance(n, ast.Call)) and \
-        any(isinstance(n, ast.If) and "not in self._value_map" in norm(n.test) for n in own_nodes(rm.node))
+    # a spec is rebuilt with value=<image under self._value_map>; specs whose value is not in the map are kept
+    mapped = {n.targets[0].id for n in own_nodes(rm.node) if isinstance(n, ast.Assign) and isinstance(n.targets[0], ast.Name)
+              and isinstance(n.value, ast.Subscript) and norm(n.value.value) == "self._value_map"}
+    rebuilt = any(isinstance(n, ast.Call) and dotted_of(n.func) == "dataclasses.replace" and any(
+        k.arg == "value" and ((isinstance(k.value, ast.Name) and k.value.id in mapped) or "self._value_map" in norm(k.value)) for k in n.keywords)
+        for n in own_nodes(rm.node))
+    ok = rebuilt and any(isinstance(n, ast.If) and "not in self._value_map" in norm(n.test) for n in own_nodes(rm.node))
     ctx.check("R5", "_remap_device_configurations rebuilds specs with the mapped value and keeps unmapped ones", ok, rm, rm.node,
               "remapping does not replace the spec's value by its clone", how="dataclasses.replace(spec, value=mapped)", nontrivial=False)
     dm = repo.func("onnx_ir.serde:deserialize_model")
@@ -229,9 +241,53 @@ def rule_r5(ctx):
               how="comparison constants of the two `ir_version <` tests", symbol="onnx_ir.serde:multi-device gating", construct=f"gates {gates}")
 
 
+def rule_r6(ctx):
+    repo = ctx.repo
+    n = 0
+    for mn in ("onnx_ir._core", "onnx_ir.serde", "onnx_ir._multi_device"):
+        for f in repo.modules[mn].all_funcs:
+            if not any(isinstance(x, ast.Attribute) and x.attr == "device_configurations" for x in ast.walk(f.node)):
+                continue
+            # loops over the functions of a model
+            floops = [lp for lp in own_nodes(f.node) if isinstance(lp, ast.For) and isinstance(lp.target, ast.Name)
+                      and any(isinstance(x, ast.Attribute) and x.attr == "functions" for x in ast.walk(lp.iter))]
+            if not floops:
+                continue
+
+            def recursive(e):
+                return isinstance(e, ast.Call) and ((isinstance(e.func, ast.Attribute) and e.func.attr == "all_nodes")
+                                                    or (dotted_of(e.func) or "").endswith("RecursiveGraphIterator"))
+
+            sources = []  # (expr, what)
+            for lp in floops:
+                fv = lp.target.id
+                for x in ast.walk(lp):
+                    if isinstance(x, ast.Call) and isinstance(x.func, ast.Attribute) and x.func.attr in ("extend", "update") and x.args \
+                            and any(isinstance(y, ast.Name) and y.id == fv for y in ast.walk(x.args[0])):
+                        sources.append((x.args[0], f"nodes of each function `{fv}`"))
+                    if isinstance(x, ast.For) and x is not lp and any(isinstance(y, ast.Name) and y.id == fv for y in ast.walk(x.iter)):
+                        sources.append((x.iter, f"nodes of each function `{fv}`"))
+            for x in own_nodes(f.node):
+                if isinstance(x, ast.Call) and dotted_of(x.func) in ("list", "tuple") and x.args and any(
+                        isinstance(y, ast.Attribute) and y.attr == "graph" for y in ast.walk(x.args[0])):
+                    sources.append((x.args[0], "nodes of the main graph"))
+                if isinstance(x, ast.For) and x not in floops and any(isinstance(y, ast.Attribute) and y.attr == "graph" for y in ast.walk(x.iter)) \
+                        and not any(isinstance(y, ast.Attribute) and y.attr == "functions" for y in ast.walk(x.iter)):
+                    sources.append((x.iter, "nodes of the main graph"))
+            for e, what in sources:
+                inner = e.args[0] if isinstance(e, ast.Call) and dotted_of(e.func) in ("list", "tuple", "iter") and e.args else e
+                n += 1
+                ctx.check("R6", f"{f.local}: {what} come from a recursive traversal ({norm(e)})", recursive(inner), f, e,
+                          f"`{norm(e)}` visits only the top-level nodes: annotations on nodes nested in subgraphs (If/Loop/Scan bodies) are "
+                          "skipped by this model-wide sweep - e.g. cascade removal leaves them pointing at a configuration the model no longer declares",
+                          how="node source is <graph-like>.all_nodes() / RecursiveGraphIterator(<graph-like>)", construct=f"{what}: {norm(e)}")
+    ctx.require(n >= 6, f"only {n} node sources found in the model-wide device-configuration sweeps")
+
+
 def run(ctx):
     rule_r1(ctx)
     rule_r2(ctx)
     rule_r3(ctx)
     rule_r4(ctx)
     rule_r5(ctx)
+    rule_r6(ctx)
